@@ -235,3 +235,14 @@ def r11_5(run):
 
 
 RULES = [("R11.1", r11_1), ("R11.2", r11_2), ("R11.3", r11_3), ("R11.4", r11_4), ("R11.5", r11_5)]
+
+
+def r11_6(run):
+    """the duty is reported from the same quantities it was calculated with: the generic branch results the heat components report
+    (t_outlet, temp_from, temp_to, qext, the mass flows) are the pit columns of the solved state, for every row, whatever the
+    flow direction -- shared with C02 R2.4 (get_basic_branch_results maps every result key to its pit column / formula)"""
+    from .c02 import r2_4
+    r2_4(run)
+
+
+RULES.append(("R11.6", r11_6))
